@@ -1,4 +1,4 @@
-(** C29 property theorems (part 1 of 3; the three files are compiled in parallel): statements only, each closed by [exact]; proofs are in C29/C29_Proofs.v.
+(** C29 property theorems (part 1 of 5; the files are compiled in parallel): statements only, each closed by [exact]; proofs are in C29/C29_Proofs.v.
     in_pointMassAt, in_isValid, in_shiftToMassCenter, in_shiftFromMassCenter, si_mulSV, si_calcMassMoment, sa_shift*
     are regenerated from MassProperties.h / SpatialAlgebra.h on every run (Gen/c29in_gen.v, c29si_gen.v, c29sa_gen.v);
     the other functions are the hand model C29/C29_Model.v, tied by the correspondence run of checks/C29.py. *)
@@ -88,4 +88,22 @@ Theorem C29_momentum_shifts_like_force m p G V S :
   si_mul ROps (si_shift ROps (m,p,G) S) (sa_shiftVelocityBy ROps V S) = sa_shiftForceBy ROps (si_mul ROps (m,p,G) V) S.
 Proof. exact (momentum_shifts_like_force m p G V S). Qed.
 Print Assumptions C29_momentum_shifts_like_force.
+
+Theorem C29_ke_invariant_under_shift m p G V S :
+  sv_dot ROps (sa_shiftVelocityBy ROps V S) (si_mul ROps (si_shift ROps (m,p,G) S) (sa_shiftVelocityBy ROps V S))
+  = sv_dot ROps V (si_mul ROps (m,p,G) V).
+Proof. exact (ke_invariant_under_shift m p G V S). Qed.
+Print Assumptions C29_ke_invariant_under_shift.
+
+Theorem C29_reexpress_is_congruence R S : rotation R ->
+  sym_to_m33 (reexpressSymMat33 ROps R S) = sym_congr ROps R S.
+Proof. exact (reexpress_is_congruence R S). Qed.
+Print Assumptions C29_reexpress_is_congruence.
+
+Theorem C29_reexpressSymMat33_preserves_charpoly R S : rotation R ->
+  sym_trace ROps (reexpressSymMat33 ROps R S) = sym_trace ROps S /\
+  sym_inv2 ROps (reexpressSymMat33 ROps R S) = sym_inv2 ROps S /\
+  sym_det ROps (reexpressSymMat33 ROps R S) = sym_det ROps S.
+Proof. exact (reexpressSymMat33_preserves_charpoly R S). Qed.
+Print Assumptions C29_reexpressSymMat33_preserves_charpoly.
 
